@@ -348,6 +348,14 @@ func (m *Model) Step(op string, res OpResult, hooks []CalcCall, loads []LoadCall
 		for _, kk := range m.liveKeys() {
 			ex.mapRes[kk] = m.m[kk].val
 		}
+	case "allinv":
+		// every key live when the iteration began is yielded once (only yielded keys are removed) and invalidated
+		ex.isList = true
+		ex.listBefore = m.liveKeys()
+		for _, kk := range ex.listBefore {
+			ex.removed = append(ex.removed, m.remove(kk, otter.CauseInvalidation)...)
+		}
+		ex.list = m.liveKeys()
 	case "alladv", "keysadv", "coldestadv", "hottestadv":
 		// the clock advances after the first element: the first one is judged at the old clock value, the rest at the new
 		ex.isList = true
